@@ -576,13 +576,13 @@ fn rule_addenda(id: &str) -> &'static str {
         "C11" => " Added later: an initialised reward index keeps its mint and vault; clocks that read a negative time; the legacy-pool migration may change nothing but the repurposed fields.",
         "C12" => " Added later: reposition compared with its Anchor decomposition; zero-length slices in the remaining-accounts description.",
         "C13" => " Added later: accessor-level sequences on raw buffers through hook H3 (four array kinds side by side).",
-        "C14" => " Added later: the fee taken on a step follows its rate; constants satisfy the validity rules, change only through a call naming their pool and restart the variables; read-only oracle forks; high-frequency chain runs.",
-        "C15" => " Added later: frame-condition monitor (no tick array / position / oracle / lock record of another pool changes); one more account appended to fully named calls; routes that do not chain; duplicated slice types; v1 forms on Token-2022 pools.",
+        "C14" => " Added later: the fee taken on a step follows its rate; constants satisfy the validity rules, change only through a call naming their pool and restart the variables; read-only oracle forks; high-frequency chain runs; an oracle is born without a past; lamports at an oracle address must not block trading.",
+        "C15" => " Added later: frame-condition monitor (no tick array / position / oracle / lock record of another pool changes); one more account appended to fully named calls; routes that do not chain; duplicated slice types; v1 forms on Token-2022 pools; all tick-array slots of a swap filled with foreign empty accounts.",
         "C16" => " Added later: mints that also carry badge-gated extensions (close authority, permanent delegate, default account state) in either order.",
         "C17" => " Added later: cyclic routes; a trader one unit short; fee-aware decomposition of refused routes in transfer-fee / hook worlds; any refusal of the program's own needs a reason the single swaps would have met too; duplicated slice types.",
         "C18" => " Added later: bundle invariants after every transaction; wrapping addition amounts, a small deposit through the frozen account and a second empty unfrozen account in the locked-position probe; mismatched bundle indexes.",
         "C19" => " Added later: setters echo their arguments; accumulator x group size at 2^32; group sizes dividing related quantities; bare 82-byte Token-2022 mints, dangling TLV tails, native mints; rewards over the pool's own mints.",
-        "C20" => " Added later: tick math sampled over the whole range; liquidity quotes at the u64 edge; amount-delta functions compared at extreme magnitudes on reached prices.",
+        "C20" => " Added later: tick math sampled over the whole range; liquidity quotes at the u64 edge; amount-delta functions compared at extreme magnitudes on reached prices; SDK calls under a deadline; quotes over the SDK helper's five arrays.",
         _ => "",
     }
 }
